@@ -2,12 +2,17 @@
 Proof (coq/C01): resolve_entity (chr domain explicit, caught exceptions regenerated from util.py), compute_path with the
 de-duplication of states by (apocount, bold, italic) (<=32 states kept, fan-out <=6, <=192 states generated per step, path length =
 number of counts, for every tie-breaking order), and — coq/C01/Passes.v, ProofsPasses.v — the index-walking loops of the
-refinement passes with explicit termination measures (ParseSections/Lines/Paragraphs/SingleQuote/Urls, ParsePreformatted, TableCell/Row/TableParser).
+refinement passes with explicit termination measures (ParseSections/Lines/Paragraphs/SingleQuote/Urls, ParsePreformatted, TableCell/Row/TableParser),
+and - coq/C01/PassesPost.v, ProofsPassesPost.v, ProofsPostGen.v - the post-processor remove_boilerplate on every article tree (lookup attribute and
+except clause regenerated from post_processors.py on every run: reading the attribute dict, where parse_params stores ints, breaks the proof).
 Tie: extracted models vs the real code: resolve_entity on entity strings; compute_path on count lists (real path is a successor chain
 of the model, states per step measured on the real code <= 192 and equal to the model's when no cut can occur, each case under a CPU
-budget); the passes on abstract token lists (vt/harness/c01_passes.py, c01_passtie.py).
+budget); the passes on abstract token lists (vt/harness/c01_passes.py, c01_passtie.py); remove_boilerplate on real article trees parsed from
+generated wikitext without post-processors vs the model on their abstraction (vt/harness/c01_post.py, model evaluated by coqc).
 Search: grammar/mutation strings over the whole wikitext alphabet x 12 languages x template universes, plus the deterministic
-families `attrnum` (number-like Unicode attribute values x every construct that takes attributes), `quoteruns` (10..60 apostrophe
+families `attrnum` (number-like Unicode attribute values x every construct that takes attributes), `readattrs` (every attribute name the
+sources look up by name - ast scan of the snapshot, vt/gen/c01_attrnames.py - x int-like / numeric-looking / mixed values x every element kind
+x 4 attribute forms x 7 position classes), `quoteruns` (10..60 apostrophe
 runs on one line), `reparse` (wiki databases whose pages re-parse themselves through every re-parsing tag extension, direct and mutual cycles;
 `reparse-fanout` with >= 2 recursive edges per page), `longdigits` (a 4301-digit string at every numeric position) and `uniqmarkers`
 (strip markers \\x7fUNIQ-tag-n-hex-QINU\\x7f - unknown, in the table of the parse, ill-formed, truncated, nested - at every position class); oracle = parse_string returns an Article, raises nothing, stays within the CPU budget C0 + C*n^2 + Cdb*ndb (ndb = size of the wiki database)."""
@@ -26,6 +31,8 @@ NSHARDS = 16
 # two input classes found defects of /repo that are fixed since (imagemap coordinates beyond the 4300-digit int() limit; cycles that re-parse
 # a page >= 2 times per level: MAX_NESTED_WORK).  On by default; VERIF_C01_OPEN_DEFECTS=0 leaves them out (to look at an older tree).
 OPEN_DEFECTS = os.environ.get("VERIF_C01_OPEN_DEFECTS", "1") == "1"
+
+PENDING_HITS = []      # unit-level monitor hits of the ties, reported after the search (which minimises)
 
 SEEDS = ["{{#switch:|}}", "&#99999999999;", "<nowiki>&#99999999999;</nowiki>", "&#xFFFFFFFFF;", "&#-1;", "&#x110000;", "&#0;", "&#xD800;", "[[&#xD800;]]",
          "<pre>&#99999999999;</pre>", "<inputbox/>", "<inputbox>x</inputbox>", "{{rec}}", "<ref>{{#ifexist:X|y|n}}</ref>",
@@ -303,7 +310,20 @@ def check(run):
                 "template calls, HTML/extension tags) alone and in (sampled: quick / all: thorough) ordered pairs repeated to the length "
                 "bound + every number-like character (ASCII, Unicode digits that int() rejects, decimal digits of other scripts incl. non-BMP, "
                 "fractions/roman/ideographic numbers) as attribute value with sign/whitespace/quoting variants in every construct that takes "
-                "attributes (HTML tags, table/row/cell/caption modifiers, extension tags, #tag, image options) + one line with 10..60 apostrophe "
+                "attributes (HTML tags, table/row/cell/caption modifiers, extension tags, #tag, image options) + (family readattrs) every attribute / "
+                "style-property name that the sources look up BY NAME (scanned on every run with python's ast from the snapshot: string constants in "
+                ".get/.pop/.setdefault calls, subscripts and `in` tests of mwlib/parser, mwlib/extensions, mwlib/rendering - e.g. class, id, style, "
+                "display, colspan, from, to, index, enclose, name; listed in coverage.attribute_names_read_by_name) and the standard HTML attribute "
+                "names x 25 values (12 that int() accepts, so that parse_params stores an int - 5, 2024, 0, 007, -1, +5, blank-padded, 5_0, "
+                "Arabic-Indic and full-width digits, 25 digits, tab/newline-padded - and 13 numeric-looking / mixed / trivial ones: 1.5, 1e3, 5%, "
+                "0x10, superscript two, 5px, x5, '5 a', 'a 5', 5;6, 5:6, empty, a) on EVERY element kind that carries attributes (86: all HTML-ish "
+                "tags the scanner lets through incl. void ones, table / caption / tr / td / th, ol / ul / li, dl / dt / dd, unclosed and self-nested "
+                "div, wiki table / row / cell / header / caption modifiers, all extension tags, #tag:ref/poem/gallery/source/pages), in 4 forms "
+                "(double-quoted, single-quoted, unquoted, as a property of style=) and 7 position classes (top level, nested in div+span, table "
+                "cell, list item of each list kind, reference body, image caption, produced by a template that receives the value as argument); one "
+                "document per (name, value) holds every element kind once, forms and positions rotate with the document number (quick); thorough "
+                "runs all 28 (form, position) rotations for the int-like values and 4 for the others; exempt from the 400-character cap (documents "
+                "of ~5-6 k characters) + one line with 10..60 apostrophe "
                 "runs of lengths 2..6 after each opener (plain / runs from a template) + wiki databases in which a page re-parses itself: a cycle of 1..3 pages "
                 "closed through EVERY re-parsing tag extension (ref, poem, gallery caption and line, pages by number and by title, imagemap, rot13, nowiki, "
                 "named ref) and through #tag:ref/poem/pages and plain calls, direct and mutual (every ordered pair of recursing wrappers), entered by the "
@@ -346,13 +366,18 @@ def check(run):
                    "pass loop models: abstraction of tokens to the kinds the loops branch on; functional encoding of two aliasing sites "
                    "(the open-section stack of ParseSections, the styles list of ParseSingleQuote); compute_path as a parameter of the "
                    "ParseSingleQuote model (replayed in call order in the tie) — all covered by the differential runs",
+                   "post-processor model (coq/C01/PassesPost.v): article trees abstracted to node kinds (div TagNode with the value stored under "
+                   "'class': absent / int / str with or without 'boilerplate'; other TagNode; Text; other), the lookup attribute and the except clause "
+                   "generated from post_processors.py by vt/gen/c01_post.py (shape of the whole function compared with a reference AST, fail-closed); "
+                   "`child.values` raises AttributeError because no tree node has such an attribute (checked on every real tree of the tie); "
+                   "post_processors.simplify is not modelled (its only operations are list deletion at collected indices and str + str)",
                    "table / preformatted loop models (coq/C01/PassesPre.v, PassesTable.v): util.parse_params / Token.join_as_text (modifier -> vlist) and "
                    "core.TagParser for <caption> inside make_table are not modelled (exercised by the search on real wikitext only); the token kinds "
                    "cover everything these loops branch on (type, blocknode, tagname, rawtagname, text None / blank / column mark); ParsePreformatted's "
                    "tree walk (get_token_walker) is not modelled, only run() on one list"]
     run.assumptions = ["inputs are sequences of Unicode scalar values (no lone surrogates in the raw text), length <= 400 (quick) / 5000 (thorough); "
                        "the deterministic quote-run lines are up to 660 characters, the strip-marker family up to ~450 and the long-digit family up to "
-                       "~5100 characters in both tiers",
+                       "~5100 characters, the read-by-name attribute family up to ~6000 characters in both tiers",
                        "syntactic nesting <= 40, of the raw text, of the raw text with its <!-- comments --> removed (the parser strips them first, which glues "
                        "the markup on both sides: '*#:;<!-- c -->*#:;' is a list prefix of length 8) and of the text after template expansion (deeper nesting exhausts the interpreter "
                        "stack by construction and is excluded by the property): a RecursionError on an input whose expanded text nests "
@@ -361,17 +386,25 @@ def check(run):
                        "wiki database, which is part of the input; the linear term covers the bounded number (MAX_PARSE_DEPTH, MAX_NESTED_WORK) of nested parses "
                        "that database pages can cause, each linear in the page text)"]
     src = core.snapshot()
+    del PENDING_HITS[:]
     try:
         proofs(run, src)
     except Exception as e:  # noqa: BLE001  a broken proof phase must not stop the search for a concrete input (verdict stays fail-closed)
         run.obligation("proof-and-tie-phase-completed", False, "%s: %s" % (type(e).__name__, str(e)[:400]))
     search(run, src)
+    have = {h["fingerprint"] for h in run.hits}
+    for fp, what, rp in PENDING_HITS:
+        if fp not in have:
+            have.add(fp)
+            run.hit(fp, what, rp)
 
 
 def generate(src):
     from vt.gen import c01_path, c01_resolve
     r = c01_resolve.generate(src)
     r.update(c01_path.generate(src))
+    from vt.gen import c01_post
+    r.update(c01_post.generate(src))
     return r
 
 
@@ -500,6 +533,86 @@ def proofs(run, src):
     from vt.harness import c01_passtie
     pres = c01_passtie.tie(run, src)
     run.coverage["pass_loop_ties"] = {nm: {k: v for k, v in r.items() if k != "disagreement_list"} for nm, r in pres.items()}
+    # ---- tie 17: the post-processor remove_boilerplate (coq/C01/PassesPost.v, configuration generated from the source)
+    post_tie(run, src)
+
+
+def _coq_tree(t):
+    kinds = {10: "KDiv None", 11: "KDiv (Some AInt)", 12: "KDiv (Some (AStr false))", 13: "KDiv (Some (AStr true))",
+             20: "KTagNode", 21: "KText", 22: "KOtherNode"}
+    return "(Node (%s) [%s])" % (kinds[t[0]], "; ".join(_coq_tree(c) for c in t[1]))
+
+
+def post_tie(run, src):
+    """tie 17: the real post_processors.remove_boilerplate on real article trees (parsed from generated wikitext without post-processors)
+    vs the model rb of coq/C01/PassesPost.v under the configuration generated from the source (Gen_post.post_cfg), evaluated by coqc
+    (vm_compute) on the abstraction of the same trees; compares the resulting tree / the exception kind."""
+    n = 400 if run.tier == "quick" else 2000
+    docs = [G.post_doc(run.rng) for _ in range(n)]
+    inp = "".join(json.dumps({"id": i, "raw": d, "lang": G.LANGS[i % 12]}) + "\n" for i, d in enumerate(docs))
+    _rc, out = core.run_impl("vt.harness.c01_post", [], src=src, input=inp, timeout=1800)
+    res = {}
+    for ln in out.splitlines():
+        if ln.startswith('{"id"'):
+            r = json.loads(ln)
+            res[r["id"]] = r
+    dis = []
+    if len(res) != n:
+        dis.append("c01_post: %d/%d results: %s" % (len(res), n, out[-300:]))
+    usable = [i for i in sorted(res) if "pre" in res[i]]
+    outcomes = collections.Counter()
+    model = {}
+    for k in range(0, len(usable), 400):
+        chunk = usable[k:k + 400]
+        fn = "cases_post_%d_%d.v" % (os.getpid(), k)
+        path = os.path.join(core.COQ, "C01", fn)
+        text = ("From Coq Require Import List.\nFrom MW Require Import C01.PassesPost C01.Gen_post.\nImport ListNotations.\n"
+                "Eval vm_compute in (map (rb_run post_cfg) [\n%s]).\n" % ";\n".join(_coq_tree(res[i]["pre"]) for i in chunk))
+        try:
+            with open(path, "w") as f:
+                f.write(text)
+            ok, cout = core.coqc_file("C01/" + fn, timeout=600)
+        finally:
+            for ext in (".v", ".vo", ".vok", ".vos", ".glob"):
+                try:
+                    os.unlink(path[:-2] + ext)
+                except OSError:
+                    pass
+            try:
+                os.unlink(os.path.join(core.COQ, "C01", "." + fn[:-2] + ".aux"))
+            except OSError:
+                pass
+        m = re.search(r"=\s*(\[.*\])\s*:\s*list \(list nat\)", cout, re.DOTALL)
+        if not ok or not m:
+            dis.append("coqc on the model cases failed: %s" % cout[-300:])
+            continue
+        vals = json.loads(m.group(1).replace(";", ","))
+        if len(vals) != len(chunk):
+            dis.append("model returned %d results for %d cases" % (len(vals), len(chunk)))
+            continue
+        for i, v in zip(chunk, vals):
+            model[i] = v
+    nvalues = 0
+    for i in usable:
+        r = res[i]
+        nvalues += r.get("values_attr", 0)
+        for u in r.get("unmodelled", []):
+            dis.append("remove_boilerplate(%r): tree outside the model: %s" % (docs[i][:120], u))
+        if i in model and model[i] != r["out"]:
+            dis.append("remove_boilerplate on the tree of %r: real %r, model %r" % (docs[i][:160], r["out"][:12], model[i][:12]))
+        outcomes["tree" if r["out"][0] == 0 else "TypeError" if r["out"][0] == 1 else "AttributeError" if r["out"][0] == 2 else "other exception"] += 1
+        if r["out"][0] != 0:
+            # monitor at unit level: an exception escaping a post-processor aborts the whole parse (uparser.py:102)
+            fp = "exc:%s@parser/post_processors.py:remove_boilerplate" % {1: "TypeError", 2: "AttributeError"}.get(r["out"][0], r.get("exc", "?"))
+            # (reported after the search, and only when the search has no minimised input with the same fingerprint)
+            PENDING_HITS.append((fp, "remove_boilerplate raised on the article tree of %r" % docs[i][:200],
+                                 {"raw": docs[i], "lang": G.LANGS[i % 12], "db": None, "fp": fp}))
+    if nvalues:
+        dis.append("%d tree nodes have an attribute `values`: the model's LAbsent (AttributeError on child.values) does not hold" % nvalues)
+    run.tie("remove_boilerplate: real post-processor on real article trees vs model rb under the generated configuration (result tree / exception kind)",
+            len(usable), dis)
+    run.coverage["remove_boilerplate_tie"] = {"documents": n, "trees": len(usable), "outcomes": dict(outcomes),
+                                              "trees_with_an_int_class": sum(1 for i in usable if "[11," in json.dumps(res[i]["pre"]))}
 
 
 def replay(obj):
